@@ -429,91 +429,167 @@ def rule_tree(ctx):
 
 
 def rule_remainder(ctx):
+  """The remainder tree, by roles and values (no local names): the tree variable T is the one whose levels are popped, the level variable L receives the
+  popped level, the remainder variable is the other list the leaf step zips with the last level.  One pass of the level loop must turn the parent
+  remainders P into a list of len(level) entries, entry i being P[i // 2] or P[i // 2] % level[i] - written by one store per node into a fresh list of the
+  level's length, or as a comprehension over range(len(level))."""
   R = "R-C03-REMAINDER"
   repo = ctx.repo
   f = repo.func("rsa_util", "BatchGCD")
   w = sym.Walker(repo, f)
   w.run()
   outer = [i for i in w.loop_info.values() if isinstance(i["node"], ast.While)]
-  inner = [i for i in w.loop_info.values() if isinstance(i["node"], ast.For)]
-  if len(outer) != 1 or len(inner) != 1:
-    ctx.violation(R, f.where, "remainder tree", "expected one level loop and one per-node loop")
+  if len(outer) != 1 or not outer[0].get("visits"):
+    ctx.violation(R, f.where, "remainder tree", "expected one level loop")
+    return
+  oc = outer[0]
+  inside = {id(x) for x in ast.walk(oc["node"])}
+  inner = [i for i in w.loop_info.values() if isinstance(i["node"], ast.For) and id(i["node"]) in inside]
+  # ---- roles
+  def popped(v_):
+    a_ = v_.as_atom() if isinstance(v_, Poly) else None
+    return a_.args[0] if a_ is not None and a_.kind == "mcall" and len(a_.args) >= 2 and a_.args[1] == P("lit", "pop") else None
+  L = T = None
+  for kind, val, s_, since, visit in oc["body_paths"]:
+    for nm, v_ in s_.env.items():
+      src_ = popped(v_)
+      if src_ is not None and nm in oc["modified"]:
+        tn = [n_ for n_ in oc["modified"] if isinstance(visit["head"].env.get(n_), Poly) and visit["head"].env[n_] == src_]
+        if tn:
+          L, T = nm, tn[0]
+  values = P("param", f.params()[0])
+  leaf = []          # (return event, K, V, bv, src)
+  for e in w.events:
+    if e.kind != "return":
+      continue
+    ra = as_poly(e.data["value"]).as_atom() if not isinstance(e.data["value"], (Seq, Const, tuple)) else None
+    if ra is None or ra.kind != "map" or ra.args[2] != values:
+      continue
+    ea = ra.args[0].as_atom()
+    d = ea.args[0].as_atom() if ea is not None and ea.kind == "idx" else None
+    m = d.args[0].as_atom() if d is not None and d.kind == "dictof" else None
+    kv = m.args[0].as_atom() if m is not None and m.kind == "map" else None
+    if kv is not None and kv.kind == "seq" and len(kv.args) == 2:
+      leaf.append((e, kv.args[0], kv.args[1], Poly.atom(m.args[1]), m.args[2]))
+    else:
+      leaf.append((e, None, None, None, None))
+  Rv = None
+  if L is not None:
+    for e, K, V, b, src in leaf:
+      za = src.as_atom() if src is not None else None
+      if za is None or za.kind != "zip" or len(za.args) != 2:
+        continue
+      for vis in oc["visits"]:
+        aft = vis.get("after_env") or {}
+        nms = [[n_ for n_, x_ in aft.items() if isinstance(x_, Poly) and x_ == z_] for z_ in za.args]
+        if all(nms) and L in nms[0] + nms[1]:
+          other = [n_ for n_ in (nms[1] if L in nms[0] else nms[0]) if n_ not in (L, T)]
+          if other:
+            Rv = other[0]
+  if L is None or T is None or Rv is None:
+    ctx.violation(R, f.where, "remainder tree", "cannot identify the popped level, the tree and the remainder list (%s, %s, %s)" % (L, T, Rv))
     return
   # R2: levels popped from the end while the tree is non-empty
-  oc = outer[0]
   okp = True
   for v in oc["visits"]:
     c = w.cond(oc["node"].test, v["head"])
-    if not (c[0] == "truthy" and "prod_tree" in repr(c[1])):
+    if not (c[0] == "truthy" and as_poly(c[1]) == as_poly(v["head"].env.get(T))):
       okp = False
   pops = [e for e in w.events if e.kind == "mutate" and e.data["method"] == "pop"]
   okp = okp and bool(pops) and all(not e.data["args"] or as_poly(e.data["args"][0]) == Poly.const(-1) for e in pops)
   ctx.record(R, f.where, "levels root -> leaves", okp, "while prod_tree: level = prod_tree.pop()  (levels were appended leaf -> root)" if okp else
              "levels are not consumed from the root (last appended) downwards until the tree is empty")
-  # R3: per node store
-  probs = []
-  n = 0
-  for kind, val, s, since, visit in inner[0]["body_paths"]:
-    n += 1
-    evs = [w.events[i] for i in s.trace[since:]]
-    stores = [e for e in evs if e.kind == "store"]
-    if len(stores) != 1:
-      probs.append("a node gets %d remainder stores" % len(stores))
-      continue
-    e = stores[0]
-    k = visit["k"]
-    head = visit["head"]
-    level = as_poly(head.env.get("unique_values"))
-    prev = as_poly(head.env.get("prev"))
-    if as_poly(e.data["index"]) != k:
-      probs.append("remainder stored at %r instead of the node's own index" % (e.data["index"],))
-    parent = sym.mk("idx", prev, sym.mk("fdiv", k, Poly.const(2)))
-    v = as_poly(e.data["value"])
-    if v == parent:
-      pass
-    elif v == sym.mk("mod", parent, sym.mk("idx", level, k)):
-      pass
+  # R3: one pass of the level loop
+  def node_value_ok(v, parent_of, level, k, probs):
+    """v is the remainder of node k: parent[k // 2] or parent[k // 2] % level[k]"""
+    v = as_poly(v)
+    par_ = parent_of(k)
+    if v == par_ or v == sym.mk("mod", par_, sym.mk("idx", level, k)):
+      return
+    va = v.as_atom()
+    if va is not None and va.kind == "mod" and va.args[0] == par_:
+      probs.append("remainder reduced modulo %r, not the node's own value unique_values[i]" % (va.args[1],))
     else:
-      va = v.as_atom()
-      if va is not None and va.kind == "mod" and va.args[0] == parent:
-        probs.append("remainder reduced modulo %r, not the node's own value unique_values[i]" % (va.args[1],))
-      else:
-        probs.append("child does not read its parent's remainder prev[i // 2]: %r" % (v,))
-    rng = as_poly(visit["iter"])
-    if rng != sym.mk("range", sym.mk("len", level)) and rng != sym.mk("enumerate", level):
-      probs.append("per-node loop does not cover range(len(level))")
+      probs.append("child does not read its parent's remainder prev[i // 2]: %r" % (v,))
+  def alts_of(v):
+    a_ = v.as_atom() if isinstance(v, Poly) else None
+    if a_ is not None and a_.kind == "ite" and len(a_.args) == 3:
+      return alts_of(a_.args[1]) + alts_of(a_.args[2])
+    return [v]
+  probs, book = [], []
+  n = 0
+  pairs = []         # (parent remainders, level) of every pass of the level loop
+  for kind, val, s_, since, visit in oc["body_paths"]:
     if kind not in ("fall", "continue"):
-      probs.append("per-node loop left by `%s`" % kind)
+      probs.append("level loop left by `%s`" % kind)
+      continue
+    prevR = as_poly(visit["head"].env.get(Rv))
+    level = as_poly(s_.env.get(L))
+    pairs.append((prevR, level))
+    newR = s_.env.get(Rv)
+    na = newR.as_atom() if isinstance(newR, Poly) else None
+    if na is not None and na.kind == "map":
+      # comprehension form
+      body, bv, src = na.args
+      b = Poly.atom(bv)
+      if src != sym.mk("range", sym.mk("len", level)):
+        book.append("new remainder list does not have the level's length")
+      for alt in alts_of(body):
+        n += 1
+        node_value_ok(alt, lambda k_: sym.mk("idx", prevR, sym.mk("fdiv", k_, Poly.const(2))), level, b, probs)
+    elif not inner:
+      probs.append("the level's remainders are neither stored node by node nor built as a comprehension: %r" % (newR,))
+  for il in inner:
+    for kind, val, s_, since, visit in il["body_paths"]:
+      n += 1
+      evs = [w.events[i] for i in s_.trace[since:]]
+      stores = [e for e in evs if e.kind == "store" and not e.data.get("synthetic")]
+      if len(stores) != 1:
+        probs.append("a node gets %d remainder stores" % len(stores))
+        continue
+      e = stores[0]
+      k = visit["k"]
+      head = visit["head"]
+      level = as_poly(head.env.get(L))
+      mine = [p_ for p_, l_ in pairs if l_ == level]
+      if not mine:
+        probs.append("per-node loop does not run on the popped level")
+        continue
+      prevR = mine[0]
+      if as_poly(e.data["base"]) != as_poly(head.env.get(Rv)):
+        probs.append("the node's remainder is not stored into the new remainder list")
+      if as_poly(e.data["index"]) != k:
+        probs.append("remainder stored at %r instead of the node's own index" % (e.data["index"],))
+      node_value_ok(e.data["value"], lambda k_: sym.mk("idx", prevR, sym.mk("fdiv", k_, Poly.const(2))), level, k, probs)
+      rng = as_poly(visit["iter"])
+      if rng != sym.mk("range", sym.mk("len", level)) and rng != sym.mk("enumerate", level):
+        probs.append("per-node loop does not cover range(len(level))")
+      if kind not in ("fall", "continue"):
+        probs.append("per-node loop left by `%s`" % kind)
+      pre = (visit.get("pre_env") or {}).get(Rv)
+      if pre is None or as_poly(pre) != sym.mk("listrep", P("seq", NONE), sym.mk("len", level)):
+        book.append("new remainder list does not have the level's length")
+  if n == 0:
+    probs.append("no per-node remainder found")
   ctx.record(R, f.where, "child i reads parent i // 2, reduces mod its own value", not probs, "; ".join(sorted(set(probs))) or
              "%d paths: remainders[i] = prev[i // 2], optionally reduced mod unique_values[i] - both preserve the residue modulo the leaf" % n)
-  # prev is the previous level's remainders, new list has the level's length
-  probs = []
-  for kind, val, s, since, visit in oc["body_paths"]:
-    evs = [w.events[i] for i in s.trace[since:]]
-    head = visit["head"]
-    pv = [e for e in evs if e.kind == "assign" and e.data["name"] == "prev"]
-    if not pv or as_poly(pv[0].data["value"]) != as_poly(head.env.get("remainders")):
-      probs.append("prev is not the previous level's remainder list")
-    lv = [e for e in evs if e.kind == "assign" and e.data["name"] == "unique_values"]
-    rm = [e for e in evs if e.kind == "assign" and e.data["name"] == "remainders"]
-    if not lv or not rm or as_poly(rm[0].data["value"]) != sym.mk("listrep", P("seq", NONE), sym.mk("len", as_poly(lv[0].data["value"]))):
-      probs.append("new remainder list does not have the level's length")
-  ctx.record(R, f.where, "level bookkeeping", not probs, "; ".join(sorted(set(probs))) or "prev = remainders; remainders = [None] * len(level)")
-  # R4 leaf
-  gd = [e for e in w.events if e.kind == "assign" and e.data["name"] == "gcds_dict"]
-  ok = bool(gd)
-  for e in gd:
-    d = as_poly(e.data["value"]).as_atom()
+  ctx.record(R, f.where, "level bookkeeping", not book and not probs, "; ".join(sorted(set(book))) or ("see the per-node row" if probs else
+             "parent = the previous level's remainders; the new list has the level's length"))
+  # R4 leaf: {v: gcd(v, r) for v, r in zip(last level, its remainders)}
+  ok = bool(leaf)
+  for e, K, V, b, src in leaf:
     good = False
-    if d is not None and d.kind == "dictof":
-      m = d.args[0].as_atom()
-      if m is not None and m.kind == "map":
-        kv, bv, src = m.args
-        U = as_poly(e.state.env.get("unique_values"))
-        Rm = as_poly(e.state.env.get("remainders"))
-        b = Poly.atom(bv)
-        want = P("seq", sym.mk("idx", U, b), sym.mk("gcd", sym.mk("idx", U, b), sym.mk("idx", Rm, b)))
-        if kv == want and src == sym.mk("zip", U, Rm):
+    if K is not None:
+      for vis in oc["visits"]:
+        aft = vis.get("after_env") or {}
+        if not isinstance(aft.get(L), Poly) or not isinstance(aft.get(Rv), Poly):
+          continue
+        U, Rm = aft[L], aft[Rv]
+        za = src.as_atom()
+        if za is None or za.kind != "zip" or sorted(map(repr, za.args)) != sorted(map(repr, (U, Rm))):
+          continue
+        iu, ir = sym.mk("idx", U, b), sym.mk("idx", Rm, b)
+        if K == iu and V in (sym.mk("gcd", iu, ir), sym.mk("gcd", ir, iu)):
           good = True
     ok = ok and good
   ctx.record(R, f.where, "leaf: gcd(v, r) position-wise", ok, "{v: gcd(v, r) for v, r in zip(leaf level, its remainders)}" if ok else
